@@ -41,6 +41,7 @@ def emitRaw (s : St) : Lbl → List Ev
   | .sdCall => [.sdCalled]
   | .sdExporterShutdown => [.expShutdownStart, .expShutdownEnd]
   | .sdReturnOk => [.sdReturned true]
+  | .sdTimeout => [.sdReturned false]                                       -- the winning call returns ctx.Err()
   | .sdCallLate _ => [.sdCalled]                                            -- a further Shutdown call
   | .sdReturnLate _ => [.sdReturned true]                                   -- … returns nil once `stopOnce` is done
   | _ => []
